@@ -51,9 +51,9 @@ CHECKS = {
         ref="5 (C18), 4.3, 4.4"),
     "C19": dict(
         engine="HistorySim+ThreadSim",
-        technique="deterministic simulation of cache histories: seeded sequences of construct/copy/pickle/tokenize/transformer/drop/gc/churn steps and racing constructions (baton threads pre-empted in crs.py and cachetools) in fork-isolated pristine interpreters, with pairwise coherence oracles and a pyproj reference transformer",
+        technique="deterministic simulation of cache histories: seeded sequences of construct/copy/pickle/tokenize/transformer/drop/gc/churn/flood/read-only-use steps, racing constructions (baton threads pre-empted in crs.py and cachetools), an allocator model behind the id() seam (address reuse decided by the seeded chooser) and a peer interpreter with another string-hash seed, in fork-isolated pristine interpreters, with pairwise coherence oracles and pyproj reference transformers",
         text="Seeded search over histories of CRS construction, destruction, garbage collection, address churn and concurrent cache fills; after every step the value-object laws are checked over the live pool and every transformer is compared with one freshly built by pyproj.",
-        note="pyproj is the reference for transformer behaviour; object-identity reuse depends on the allocator and is provoked by churn and counted, not assumed",
+        note="pyproj is the reference for transformer behaviour and for which EPSG definitions are the same CRS; object-address reuse is modelled (virtual addresses under CPython's id() contract), not left to the allocator; two genuine defects are listed as known findings (D19a, D19b) and matched by cause",
         ref="5 (C19)"),
 }
 PENDING = "check under construction in this session (claimed in DESIGN.md section 1; will move to 'checks' when its engine lands)"
